@@ -303,11 +303,11 @@ func c10Structured(r *fw.Rec, kind string, blk, nblk int) {
 	}
 	// decimals far below the smallest subnormal (they underflow to zero, also as doubles)
 	if (kind == "double" || kind == "float" || kind == "half") && blk == 0 {
-		for _, lit := range []string{"1.0e-999", "-1.0e-999", "1.0e-450", "1.0e-330", "-2.5e-400", "1.0e-60", "0.0e+00", "-0.0e+00"} {
+		for _, lit := range []string{"1.0e-999", "-1.0e-999", "1.0e-450", "1.0e-330", "-2.5e-400", "1.0e-60", "0.0e+00", "-0.0e+00", "1.0e-99999999999", "-1.0e-4294967296", "1.0e-2147483648"} {
 			add(lit, "decimal-underflow")
 		}
 		// decimals beyond the range of doubles: LLVM reads them as infinity of the kind
-		for _, lit := range []string{"1.0e400", "-1.0e400", "1.0e999", "-1.0e+999", "2.0e308", "-1.8e308", "123456789.0e301", "1.797693134862315807e+309"} {
+		for _, lit := range []string{"1.0e400", "-1.0e400", "1.0e999", "-1.0e+999", "2.0e308", "-1.8e308", "123456789.0e301", "1.797693134862315807e+309", "1.0e+99999999999", "-1.0e+2147483647", "1.0e+1000000000"} {
 			add(lit, "decimal-overflow-to-infinity")
 		}
 	}
